@@ -71,13 +71,14 @@ OpReverse == /\ NoIter /\ StepA("reverse", <<>>, TRUE, Rev(a), it)
 OpDone    == /\ NoIter /\ StepA("done", <<>>, TRUE, <<>>, it)        \* C06: done() leaves it empty and reusable
 
 (* queries on A *)
+Anytime == TRUE     \* a conjunct so that TLC lists these actions under their own names in its coverage
 OpGet(i) == LET n == Norm(a, i) IN
-            StepA("get", <<i>>, IF n < 0 \/ n >= Len(a) THEN NULLV ELSE a[n + 1], a, it)
-OpIndex(e)    == StepA("index", <<e>>, FirstPos(a, e) - 1, a, it)                \* C: absent -> -1
-OpFind(e)     == StepA("find", <<e>>, IF FirstPos(a, e) = 0 THEN NULLV ELSE e, a, it)
-OpContains(e) == StepA("contains", <<e>>, FirstPos(a, e) # 0, a, it)
-OpCount       == StepA("count", <<>>, Len(a), a, it)
-OpToArray     == StepA("to_array", <<>>, a, a, it)
+            Anytime /\ StepA("get", <<i>>, IF n < 0 \/ n >= Len(a) THEN NULLV ELSE a[n + 1], a, it)
+OpIndex(e)    == Anytime /\ StepA("index", <<e>>, FirstPos(a, e) - 1, a, it)                \* C: absent -> -1
+OpFind(e)     == Anytime /\ StepA("find", <<e>>, IF FirstPos(a, e) = 0 THEN NULLV ELSE e, a, it)
+OpContains(e) == Anytime /\ StepA("contains", <<e>>, FirstPos(a, e) # 0, a, it)
+OpCount       == Anytime /\ StepA("count", <<>>, Len(a), a, it)
+OpToArray     == Anytime /\ StepA("to_array", <<>>, a, a, it)
 
 (* iterator over A *)
 OpIterNew     == /\ it = NIL /\ StepA("iter_new", <<>>, TRUE, a, 0)
